@@ -41,6 +41,16 @@ def load_known_findings():
     return out
 
 
+def _nonull(x):
+    if x is None:
+        return []
+    if isinstance(x, dict):
+        return {k: _nonull(v) for k, v in x.items()}
+    if isinstance(x, list):
+        return [_nonull(v) for v in x]
+    return x
+
+
 class Ctx:
     def __init__(self, prop, tier, seed, replay=None, keep=False):
         self.prop, self.tier, self.seed, self.keep = prop, tier, seed, keep
@@ -170,7 +180,8 @@ class Ctx:
             obs = os.path.join(d, "obs.ndjson")
             with open(obs, "w") as f:
                 for rec in part:
-                    f.write(json.dumps(rec, sort_keys=True) + "\n")
+                    # (a nil Go slice arrives as JSON null, which the Json module cannot deserialize: it means "empty")
+                    f.write(json.dumps(_nonull(rec), sort_keys=True) + "\n")
             cfgp = os.path.join(d, (name or root) + ".cfg")
             open(cfgp, "w").write(cfg_text)
             r = run_tlc(self._spec_files(modules) + [cfgp], root, cfgp, workers=1, timeout_s=timeout_s, dfs=dfs,
